@@ -660,7 +660,12 @@ func init() {
 		if err := jsonUnmarshal(raw, &c); err != nil {
 			return &kvh.Fail{Sig: "harness-bad-case", Msg: err.Error()}
 		}
-		_, f := runC16(&c)
-		return f
+		// burst steps sample the OS scheduler: execute the schedule a few times
+		for i := 0; i < 5; i++ {
+			if _, f := runC16(&c); f != nil {
+				return f
+			}
+		}
+		return nil
 	}
 }
